@@ -60,8 +60,10 @@ type EntropyPlan struct {
 	// Chunks: sizes returned by successive Read calls (0 = transient empty
 	// read); when exhausted the reader fills whatever is asked.
 	Chunks []int `json:"chunks,omitempty"`
-	// ErrAfter >= 0: after that many bytes were delivered in total, Read fails.
-	ErrAfter int `json:"err_after"`
+	// ErrAfter >= 0: after that many bytes were delivered in total, Read fails:
+	// with a device error, or (EOFKind) with io.EOF - the source ran dry.
+	ErrAfter int  `json:"err_after"`
+	EOFKind  bool `json:"eof_kind,omitempty"`
 	// EOFWithLast: the final bytes are delivered together with io.EOF.
 	EOFWithLast bool `json:"eof_with_last,omitempty"`
 }
